@@ -14,6 +14,7 @@ enum {
 	D_KEY_MISMATCH_SIGN, D_KEY_MISMATCH_ENC, D_ENC_FOREIGN,
 	D_NO_CLIENT_CERT, D_DROP_CLIENT_CERT, D_EMPTY_CLIENT_CERT, D_DROP_CERT_VERIFY,
 	D_FOREIGN_ROOT_SAMENAME_SENT, D_FOREIGN_ROOT_OTHERNAME_SENT,
+	D_JUNK_SIGNATURE,
 	D_NKINDS
 };
 static const char *g_dnames[D_NKINDS] = {
@@ -25,6 +26,7 @@ static const char *g_dnames[D_NKINDS] = {
 	"sign_key_mismatch", "tlcp_enc_key_mismatch", "tlcp_enc_cert_foreign_issuer",
 	"no_client_certificate", "client_certificate_removed", "client_certificate_empty", "certificate_verify_removed",
 	"foreign_root_same_name_sent_in_chain", "foreign_root_other_name_sent_in_chain",
+	"junk_signature",
 };
 
 /* which defects make sense for (proto, role, depth) */
@@ -197,6 +199,15 @@ static int build_defect(const Plan *p, const CredSet *good, CredSet *bad, Plan *
 		if (sm2_key_generate(&g_wrong_key) != 1) die("keygen");
 		g_mismatch = 2; break;
 	case D_NO_CLIENT_CERT: g_nocert = 1; break;
+	case D_JUNK_SIGNATURE:
+		/* genuine chain, but whatever the prover signs comes out as junk (raw r||s, OCTET STRING, one byte,
+		 * random well-formed signature, empty, SET tag) */
+		g_junk_sig_node = role == 0 ? 1 : 0;
+		g_junk_sig_form = (int)rng_below(&r, 6);
+		g_junk_sig_seed = (uint64_t)p->defect_arg;
+		g_junk_sig_fired = 0;
+		snprintf(note, nlen, "prover's signatures replaced, form %d", g_junk_sig_form);
+		break;
 	default: break;
 	}
 	return 1;
@@ -221,6 +232,7 @@ static void auth_run(const Plan *p, RunResult *r)
 		return;
 	}
 	/* defect-free twin: same plan, good credentials, no interposer edits */
+	g_junk_sig_node = -1;
 	q0 = *p;
 	q0.defect = D_NONE;
 	g_ap = &q0; g_nocert = 0; g_mismatch = 0; g_defect_applied = 0;
@@ -239,11 +251,13 @@ static void auth_run(const Plan *p, RunResult *r)
 	sim_ambient_entropy_seed((uint64_t)p->plan_seed ^ (uint64_t)p->defect_arg);   /* defective credentials are a function of the plan */
 	if (!build_defect(p, good, &bad, &q, note, sizeof(note))) { r->twin_failed = 1; return; }
 	conn_run(&q, &bad, &o, q.interpose ? auth_on_record : NULL, auth_pre_run);
+	g_junk_sig_node = -1;
 	if (o.setup_refused) { r->twin_failed = 1; return; }
 
 	int verifier = p->defect_role == 0 ? 0 : 1;
 	int interposer_defect = p->defect == D_DROP_CLIENT_CERT || p->defect == D_EMPTY_CLIENT_CERT || p->defect == D_DROP_CERT_VERIFY;
 	r->nontrivial = !interposer_defect || g_defect_applied;
+	if (p->defect == D_JUNK_SIGNATURE) r->nontrivial = g_junk_sig_fired > 0;
 	r->fault_id = hash_bytes(0xa07, (int64_t[]){ p->proto, p->defect, p->defect_role, p->depth, p->mutual, p->defect_arg & 0xffff }, 48);
 	r->nontrivial_id = r->fault_id;
 	r->faults_cfg[F_MUT] = 1; r->faults_fired[F_MUT] = r->nontrivial;
